@@ -36,6 +36,8 @@ def mcrec(family, maxlen, utf8, p, **kw):
     d = {"module": "MCRec", "model": "rec-%s-%s" % (family, "u" if utf8 else "e"), "kind": "rec", "view": "View",
          "constants": {"MaxLen": maxlen, "Utf8Mode": "TRUE" if utf8 else "FALSE", "Family": '"%s"' % family},
          "invariants": ["Agrees", "GroundClean", "ResetWord", "Complete", "Emit"], "ports": p}
+    if family == "graph":
+        d["workers"] = 1      # strict breadth-first order: with the VIEW the shortest string per edge is kept, deterministically
     d.update(kw)
     return d
 
